@@ -16,11 +16,14 @@ def main():
     args = sys.argv[1:]
     wt = "/tmp/wt/reseed"
     only = None
+    shard = None
     if args and not args[0].startswith("--"):
         wt = args.pop(0)
     for i, a in enumerate(args):
         if a == "--only":
             only = set(args[i + 1].split(","))
+        if a == "--shard":          # i/n: every n-th mutation starting at i (parallel runs, one worktree each)
+            shard = tuple(int(x) for x in args[i + 1].split("/"))
     if not os.path.isdir(wt):
         rc, out = sh("git -C /repo worktree add --detach %s HEAD" % wt, "/")
         if rc != 0:
@@ -31,9 +34,11 @@ def main():
     if a != b:
         sh("git checkout --detach %s" % b, wt)
     res = []
-    for d in sorted(glob.glob(os.path.join(ROOT, "seeded", "*", "meta.json"))):
+    for k, d in enumerate(sorted(glob.glob(os.path.join(ROOT, "seeded", "*", "meta.json")))):
         name = os.path.basename(os.path.dirname(d))
         if only and name not in only:
+            continue
+        if shard and k % shard[1] != shard[0]:
             continue
         m = json.load(open(d))
         patch = os.path.join(os.path.dirname(d), "patch.diff")
